@@ -3,6 +3,7 @@ package main
 import (
 	"fmt"
 	"go/constant"
+	"go/types"
 	"strings"
 
 	"golang.org/x/tools/go/ssa"
@@ -665,8 +666,14 @@ func ruleC04KeyEncoding(c *Ctx) {
 						reader = &Term{Op: "call", V: call}
 					}
 				}
-			case e.Kind == "call" && (isTextBufferWrite(e.Callee) && !strings.HasSuffix(e.Callee, ").Write") || isByteAccumulatorWrite(e)):
+			case e.Kind == "call" && e.Callee == "strconv.AppendInt" && isScratchDigits(e):
+				// digits formatted into a local scratch array: they reach the key only through the Write that copies them
+			case e.Kind == "call" && (isTextBufferWrite(e.Callee) && (!strings.HasSuffix(e.Callee, ").Write") || scratchDigitsArg(e) != nil) || isByteAccumulatorWrite(e)):
 				a := e.Args[len(e.Args)-1]
+				if d := scratchDigitsArg(e); d != nil {
+					// buffer.Write(strconv.AppendInt(scratch[:0], n, 10)): the digits of n, as WriteString(strconv.Itoa(n))
+					a = &Term{Op: "call", Name: "strconv.Itoa", Args: []*Term{d}}
+				}
 				if a.Op == "varargs" && len(a.Args) == 1 {
 					a = a.Args[0] // append(key, b)
 				}
@@ -1124,4 +1131,46 @@ func ruleC04BuildJoin(c *Ctx) {
 		why = append(why, "no success path")
 	}
 	c.Check(len(why) == 0, "c04.build-join", c.P.funcKey(f), c.P.Pos(f.Pos()), fmt.Sprintf("%d success paths: left built first, right second, executor's rows stored", n), strings.Join(uniq(why), "; "))
+}
+
+// isScratchDigits: strconv.AppendInt(scratch[:0], n, 10) where scratch is an array local to the function: nothing is
+// accumulated, the digits are formatted into reusable space.
+func isScratchDigits(e Effect) bool {
+	call, ok := e.Instr.(*ssa.Call)
+	if !ok || len(call.Call.Args) != 3 {
+		return false
+	}
+	if b, isC := constIntOf(call.Call.Args[2]); !isC || b != 10 {
+		return false
+	}
+	sl, ok := call.Call.Args[0].(*ssa.Slice)
+	if !ok || sl.High == nil {
+		return false
+	}
+	if h, isC := constIntOf(sl.High); !isC || h != 0 {
+		return false
+	}
+	al, ok := sl.X.(*ssa.Alloc)
+	if !ok {
+		return false
+	}
+	_, isArr := al.Type().Underlying().(*types.Pointer).Elem().Underlying().(*types.Array)
+	return isArr
+}
+
+// scratchDigitsArg: e is a Write of a text buffer whose argument is the result of such a scratch formatting; the term of
+// the number that was formatted (nil otherwise).
+func scratchDigitsArg(e Effect) *Term {
+	call, ok := e.Instr.(*ssa.Call)
+	if !ok || !strings.HasSuffix(e.Callee, ").Write") || len(call.Call.Args) != 2 {
+		return nil
+	}
+	inner, ok := call.Call.Args[1].(*ssa.Call)
+	if !ok || calleeName(inner.Common()) != "strconv.AppendInt" {
+		return nil
+	}
+	if !isScratchDigits(Effect{Instr: inner}) {
+		return nil
+	}
+	return NewTB().Of(inner.Call.Args[1])
 }
